@@ -14,6 +14,8 @@ CONSTANTS
   MaxPush = 2
   QueueBound = 4
   PreEv = 5
+  FlushFaults = FALSE
+  PreTmp = 0
   MaxDumps = 3
   PreDumps = 5
   MaxIds = 12
